@@ -26,17 +26,20 @@ func corrC15(r *Run) {
 		"non-trivial = placements with at least one Submit blocked at the event; distinct by event list"
 	ts := pduTypes()
 	c15Witnesses(r)
-	n := r.N(70, 1800)
+	n := r.N(112, 1800)
 	for i := 0; i < n; i++ {
-		c15Scenario(r, ts, i, c15Terms[i%len(c15Terms)])
+		i := i
+		confirmed(r, func() { c15Scenario(r, ts, i, c15Terms[i%len(c15Terms)]) })
 	}
 	for i, nt := 0, r.N(1, 6); i < nt; i++ {
-		c15CloseUnanswered(r, ts, i)
-		c15KeepAliveFailure(r, i, i%2 == 0)
-		c15ReadDeadline(r, ts, i)
+		i := i
+		confirmed(r, func() { c15CloseUnanswered(r, ts, i) })
+		confirmed(r, func() { c15KeepAliveFailure(r, i, i%2 == 0) })
+		confirmed(r, func() { c15ReadDeadline(r, ts, i) })
 	}
-	for i, nk := 0, r.N(4, 60); i < nk; i++ {
-		c15KeepAliveEOF(r, i, i%2 == 0)
+	for i, nk := 0, r.N(8, 60); i < nk; i++ {
+		i := i
+		confirmed(r, func() { c15KeepAliveEOF(r, i, i%2 == 0) })
 	}
 }
 
